@@ -65,3 +65,7 @@ package ast
 //@   safety C04
 //@   assume_loads elemOK
 //@   requires vs != nil && len(vs.List) >= 1
+
+// Package-level state is written only by the package initialisers: nothing is shared
+// mutably between runtimes through globals (C20).
+//@ globals_readonly[C20]
